@@ -806,6 +806,11 @@ class Dict(dict, base.Symbolic, pg_typing.CustomTyping):
     if base.treats_as_sealed(self):
       raise base.WritePermissionError('Cannot clear a sealed Dict.')
     value_spec = self._value_spec
+    if value_spec:
+      # The cleared Dict is the value spec applied to an empty dict: make sure
+      # that is acceptable (e.g. no required field is left without a value)
+      # before anything is removed.
+      Dict(value_spec=value_spec, allow_partial=base.accepts_partial(self))
     self._value_spec = None
     removed = list(self.sym_items())
     for _, value in removed:
@@ -814,7 +819,10 @@ class Dict(dict, base.Symbolic, pg_typing.CustomTyping):
     self._invalidate_content_cache()
 
     if value_spec:
-      self.use_value_spec(value_spec, self._allow_partial)
+      # The defaults are filled in by this method itself, not through the
+      # accessors of the caller.
+      with flags.allow_writable_accessors(True):
+        self.use_value_spec(value_spec, self._allow_partial)
     if flags.is_change_notification_enabled():
       schema = value_spec.schema if value_spec else None
       updates = []
